@@ -5,6 +5,20 @@
 // exactly these skeletons (theorems by `decide` in NA/Props/C09.lean).
 //
 // A construct the translator does not understand is an error (exit 1), never skipped.
+//
+// Normal form (so that behaviour-preserving rewrites give the same skeleton):
+//   - a condition is printed with every local variable / parameter of the enclosing function
+//     replaced: a variable with exactly one assignment `x := e` by (the normal form of) e; a
+//     variable that holds the error result of a call by `err`; any other by a description of
+//     where its value comes from ($r receiver, $p2 second parameter, $Cut.2 second result of the
+//     call of Cut that defines it, ...; see describe).  Names of locals never occur.
+//   - polarity: `!c` and `a == b` are stored as `c` resp. `a != b` with the branches swapped.
+//   - guard clauses: if the positive branch always leaves (return / continue / break / Abort /
+//     panic) the negative branch is recorded as if it stood after the statement, and vice versa;
+//     `if c {A; return} else {B}`, `if c {A; return}; B` and `if !c {B} else {A; return}` coincide.
+//   - an argument that is a local variable holding an error is recorded as "err" whatever its name.
+//   - only the callees of the whitelist are recorded: a pure helper that is not listed is
+//     transparent (extracting, inlining or renaming it changes nothing).
 package main
 
 import (
@@ -94,8 +108,28 @@ func src(n ast.Node) string {
 }
 
 type walker struct {
-	sites    []site
-	closures map[string]*ast.FuncLit // named closures found (name -> literal)
+	sites       []site
+	closures    map[string]*ast.FuncLit // named closures found (name -> literal)
+	noCondSites map[*ast.IfStmt]bool    // synthesised from a switch: the tag was walked once
+	ftype       *ast.FuncType           // type of the function whose body is walked
+}
+
+// funcBody walks the body of a function literal.
+func (w *walker) funcBody(fl *ast.FuncLit, ctx []string) {
+	saved := w.ftype
+	w.ftype = fl.Type
+	w.block(fl.Body, ctx, tFunc)
+	w.ftype = saved
+}
+
+// returnsError: the last result of the function being walked has type error.
+func (w *walker) returnsError() bool {
+	if w.ftype == nil || w.ftype.Results == nil || len(w.ftype.Results.List) == 0 {
+		return false
+	}
+	l := w.ftype.Results.List
+	id, ok := l[len(l)-1].Type.(*ast.Ident)
+	return ok && id.Name == "error"
 }
 
 func (w *walker) add(callee string, lits []string, ctx []string) {
@@ -114,12 +148,456 @@ func litOf(e ast.Expr) string {
 		}
 		return v.Value
 	case *ast.Ident:
-		if v.Name == "nil" || v.Name == "err" || v.Name == "true" || v.Name == "false" {
+		if obj := cur.local(v); obj != nil {
+			if d := cur.expandable(obj); d != nil && !cur.errorLike(obj) {
+				return litOf(d) // a temporary stands for its definition
+			}
+			if cur.errorLike(obj) {
+				return "err"
+			}
+			return "_"
+		}
+		if v.Name == "nil" || v.Name == "true" || v.Name == "false" {
 			return v.Name
 		}
 	}
 	return "_"
 }
+
+// ---- per-function facts about local variables ----
+
+type fnInfo struct {
+	fd         *ast.FuncDecl
+	assigns    map[*ast.Object]int      // number of assignments (2 = "many": ++, range, &x)
+	def        map[*ast.Object]ast.Expr // right-hand side of the defining `x := e` (1:1)
+	nilcmp     map[*ast.Object]bool     // compared with nil somewhere
+	lastOfCall map[*ast.Object]bool     // last left-hand side of an assignment from a call
+	multiLast  map[*ast.Object]bool     // ... of a call with several results
+	errType    map[*ast.Object]bool     // declared with type error
+	closure    map[*ast.Object]bool     // bound to a function literal
+	uses       map[*ast.Object]int      // occurrences other than as assignment target
+	deref      map[*ast.Object]bool     // indexed, sliced, dereferenced, type-asserted or a field/method other than Error selected
+	boolUse    map[*ast.Object]bool     // used as a condition or as operand of ! && ||
+}
+
+var cur *fnInfo
+
+func (fi *fnInfo) local(id *ast.Ident) *ast.Object {
+	if fi == nil || id.Obj == nil || id.Obj.Kind != ast.Var {
+		return nil
+	}
+	p := id.Obj.Pos()
+	if p < fi.fd.Pos() || p >= fi.fd.End() {
+		return nil
+	}
+	return id.Obj
+}
+
+// errorLike: the variable holds the error result of a call (decided without type information:
+// declared `error`, or last result of a call, compared with nil, and never used as anything but
+// a value).
+func (fi *fnInfo) errorLike(obj *ast.Object) bool {
+	return fi.errType[obj] || fi.lastOfCall[obj] && !fi.deref[obj] && !fi.boolUse[obj] && fi.nilcmp[obj]
+}
+
+// expandable: a temporary in the sense of "inline temp": one assignment `x := e`, one use.
+func (fi *fnInfo) expandable(obj *ast.Object) ast.Expr {
+	if fi.assigns[obj] != 1 || fi.uses[obj] != 1 || fi.closure[obj] || fi.errType[obj] || fi.multiLast[obj] {
+		return nil
+	}
+	return fi.def[obj]
+}
+
+func isNil(e ast.Expr) bool {
+	id, ok := e.(*ast.Ident)
+	return ok && id.Name == "nil" && id.Obj == nil
+}
+
+func analyse(fd *ast.FuncDecl) *fnInfo {
+	fi := &fnInfo{fd: fd, assigns: map[*ast.Object]int{}, def: map[*ast.Object]ast.Expr{},
+		nilcmp: map[*ast.Object]bool{}, lastOfCall: map[*ast.Object]bool{}, multiLast: map[*ast.Object]bool{},
+		errType: map[*ast.Object]bool{}, closure: map[*ast.Object]bool{}, uses: map[*ast.Object]int{}, deref: map[*ast.Object]bool{}, boolUse: map[*ast.Object]bool{}}
+	boolOf := func(e ast.Expr) {
+		if id, ok := e.(*ast.Ident); ok {
+			if obj := fi.local(id); obj != nil {
+				fi.boolUse[obj] = true
+			}
+		}
+	}
+	target := map[*ast.Ident]bool{}
+	derefOf := func(e ast.Expr) {
+		if id, ok := e.(*ast.Ident); ok {
+			if obj := fi.local(id); obj != nil {
+				fi.deref[obj] = true
+			}
+		}
+	}
+	isErrorType := func(t ast.Expr) bool {
+		id, ok := t.(*ast.Ident)
+		return ok && id.Name == "error"
+	}
+	fields := func(fl *ast.FieldList) {
+		if fl == nil {
+			return
+		}
+		for _, f := range fl.List {
+			for _, n := range f.Names {
+				if n.Obj != nil && isErrorType(f.Type) {
+					fi.errType[n.Obj] = true
+				}
+			}
+		}
+	}
+	many := func(e ast.Expr) {
+		if id, ok := e.(*ast.Ident); ok {
+			if obj := fi.local(id); obj != nil {
+				fi.assigns[obj] += 2
+			}
+		}
+	}
+	ast.Inspect(fd, func(n ast.Node) bool {
+		switch v := n.(type) {
+		case *ast.FuncType:
+			fields(v.Params)
+			fields(v.Results)
+		case *ast.AssignStmt:
+			for i, l := range v.Lhs {
+				id, ok := l.(*ast.Ident)
+				if !ok {
+					continue
+				}
+				obj := fi.local(id)
+				if obj == nil {
+					continue
+				}
+				target[id] = true
+				fi.assigns[obj]++
+				if v.Tok != token.DEFINE && v.Tok != token.ASSIGN {
+					fi.assigns[obj]++ // op=
+				}
+				if v.Tok == token.DEFINE && obj.Decl == ast.Node(v) && len(v.Lhs) == len(v.Rhs) {
+					fi.def[obj] = v.Rhs[i]
+					if _, ok := v.Rhs[i].(*ast.FuncLit); ok {
+						fi.closure[obj] = true
+					}
+				}
+				if len(v.Rhs) == 1 && i == len(v.Lhs)-1 {
+					if _, ok := v.Rhs[0].(*ast.CallExpr); ok {
+						fi.lastOfCall[obj] = true
+						if len(v.Lhs) > 1 {
+							fi.multiLast[obj] = true
+						}
+					}
+				}
+			}
+		case *ast.ValueSpec:
+			for i, id := range v.Names {
+				obj := fi.local(id)
+				if obj == nil {
+					continue
+				}
+				target[id] = true
+				if v.Type != nil && isErrorType(v.Type) {
+					fi.errType[obj] = true
+				}
+				if len(v.Values) == len(v.Names) {
+					fi.assigns[obj]++
+					fi.def[obj] = v.Values[i]
+					if _, ok := v.Values[i].(*ast.FuncLit); ok {
+						fi.closure[obj] = true
+					}
+				} else if len(v.Values) != 0 {
+					fi.assigns[obj] += 2
+				}
+			}
+		case *ast.Field:
+			for _, id := range v.Names {
+				target[id] = true
+			}
+		case *ast.Ident:
+			if !target[v] {
+				if obj := fi.local(v); obj != nil {
+					fi.uses[obj]++
+				}
+			}
+		case *ast.IndexExpr:
+			derefOf(v.X)
+		case *ast.SliceExpr:
+			derefOf(v.X)
+		case *ast.StarExpr:
+			derefOf(v.X)
+		case *ast.TypeAssertExpr:
+			derefOf(v.X)
+		case *ast.SelectorExpr:
+			if v.Sel.Name != "Error" {
+				derefOf(v.X)
+			}
+		case *ast.IncDecStmt:
+			many(v.X)
+		case *ast.RangeStmt:
+			many(v.Key)
+			many(v.Value)
+		case *ast.IfStmt:
+			boolOf(v.Cond)
+		case *ast.ForStmt:
+			boolOf(v.Cond)
+		case *ast.UnaryExpr:
+			if v.Op == token.AND {
+				many(v.X)
+			}
+			if v.Op == token.NOT {
+				boolOf(v.X)
+			}
+		case *ast.BinaryExpr:
+			if v.Op == token.LAND || v.Op == token.LOR {
+				boolOf(v.X)
+				boolOf(v.Y)
+			}
+			if v.Op == token.EQL || v.Op == token.NEQ {
+				for _, pair := range [][2]ast.Expr{{v.X, v.Y}, {v.Y, v.X}} {
+					if id, ok := pair[0].(*ast.Ident); ok && isNil(pair[1]) {
+						if obj := fi.local(id); obj != nil {
+							fi.nilcmp[obj] = true
+						}
+					}
+				}
+			}
+		}
+		return true
+	})
+	// `var x T` followed by assignments: never expandable
+	return fi
+}
+
+// describe names a local variable by where its value comes from, never by its identifier:
+// receiver $r, parameter $p<i>, named result $res<i>, parameter of a function literal $c<i>,
+// `x, y := f(..)` $f / $f.2 (last name of the callee), `v, ok := e.(T)` $assert.2,
+// `v, ok := m[k]` $index.2, range variables $range.1 / $range.2, constants $const, other $expr,
+// `var x T` $var.  For a variable assigned several times the first definition counts.
+func (fi *fnInfo) describe(obj *ast.Object) string {
+	flat := func(fl *ast.FieldList, f *ast.Field, id string) int {
+		if fl == nil {
+			return -1
+		}
+		i := 0
+		for _, g := range fl.List {
+			if len(g.Names) == 0 {
+				i++
+				continue
+			}
+			for _, n := range g.Names {
+				i++
+				if g == f && n.Name == id {
+					return i
+				}
+			}
+		}
+		return -1
+	}
+	rhs := func(lhs int, nl int, r []ast.Expr) string {
+		if len(r) == 0 {
+			return "$var"
+		}
+		e, k := r[0], lhs+1
+		if len(r) == nl {
+			e, k = r[lhs], 0
+		}
+		for {
+			if p, ok := e.(*ast.ParenExpr); ok {
+				e = p.X
+				continue
+			}
+			break
+		}
+		name := "$expr"
+		switch v := e.(type) {
+		case *ast.CallExpr:
+			if n, _ := calleeName(v.Fun); n != "" {
+				name = "$" + n
+			} else {
+				name = "$call"
+			}
+		case *ast.TypeAssertExpr:
+			name = "$assert"
+		case *ast.IndexExpr:
+			name = "$index"
+		case *ast.BasicLit:
+			name = "$const"
+		case *ast.Ident:
+			if v.Obj == nil && (v.Name == "true" || v.Name == "false" || v.Name == "nil") {
+				name = "$const"
+			}
+		case *ast.CompositeLit:
+			name = "$lit"
+		case *ast.UnaryExpr:
+			if v.Op == token.RANGE {
+				name = "$range"
+				k = lhs + 1
+			} else if _, ok := v.X.(*ast.CompositeLit); ok && v.Op == token.AND {
+				name = "$lit"
+			}
+		}
+		if k > 0 && (nl > 1 || name == "$range") {
+			name += "." + strconv.Itoa(k)
+		}
+		return name
+	}
+	switch d := obj.Decl.(type) {
+	case *ast.Field:
+		if i := flat(fi.fd.Recv, d, obj.Name); i > 0 {
+			return "$r"
+		}
+		if i := flat(fi.fd.Type.Params, d, obj.Name); i > 0 {
+			return "$p" + strconv.Itoa(i)
+		}
+		if i := flat(fi.fd.Type.Results, d, obj.Name); i > 0 {
+			return "$res" + strconv.Itoa(i)
+		}
+		name := "$c"
+		ast.Inspect(fi.fd, func(n ast.Node) bool {
+			if fl, ok := n.(*ast.FuncLit); ok {
+				if i := flat(fl.Type.Params, d, obj.Name); i > 0 {
+					name = "$c" + strconv.Itoa(i)
+				}
+				if i := flat(fl.Type.Results, d, obj.Name); i > 0 {
+					name = "$cres" + strconv.Itoa(i)
+				}
+			}
+			return true
+		})
+		return name
+	case *ast.AssignStmt:
+		for i, l := range d.Lhs {
+			if id, ok := l.(*ast.Ident); ok && id.Obj == obj {
+				return rhs(i, len(d.Lhs), d.Rhs)
+			}
+		}
+	case *ast.ValueSpec:
+		for i, id := range d.Names {
+			if id.Obj == obj {
+				return rhs(i, len(d.Names), d.Values)
+			}
+		}
+	}
+	return "$v"
+}
+
+// ---- normal form of a condition ----
+
+type normer struct {
+	fi    *fnInfo
+	depth int
+}
+
+func (n *normer) list(l []ast.Expr) []ast.Expr {
+	if l == nil {
+		return nil
+	}
+	r := make([]ast.Expr, len(l))
+	for i, e := range l {
+		r[i] = n.rw(e)
+	}
+	return r
+}
+
+func (n *normer) rw(e ast.Expr) ast.Expr {
+	switch v := e.(type) {
+	case nil:
+		return nil
+	case *ast.Ident:
+		obj := n.fi.local(v)
+		if obj == nil || n.fi.closure[obj] {
+			return &ast.Ident{Name: v.Name}
+		}
+		if n.fi.errorLike(obj) {
+			return &ast.Ident{Name: "err"}
+		}
+		if d := n.fi.expandable(obj); d != nil && n.depth < 8 {
+			n.depth++
+			r := n.rw(d)
+			n.depth--
+			switch r.(type) {
+			case *ast.BinaryExpr, *ast.UnaryExpr, *ast.StarExpr:
+				r = &ast.ParenExpr{X: r}
+			}
+			return r
+		}
+		return &ast.Ident{Name: n.fi.describe(obj)}
+	case *ast.BasicLit:
+		return &ast.BasicLit{Kind: v.Kind, Value: v.Value}
+	case *ast.BinaryExpr:
+		x := n.rw(v.X)
+		return &ast.BinaryExpr{X: x, Op: v.Op, Y: n.rw(v.Y)}
+	case *ast.UnaryExpr:
+		return &ast.UnaryExpr{Op: v.Op, X: n.rw(v.X)}
+	case *ast.ParenExpr:
+		x := n.rw(v.X)
+		if _, ok := x.(*ast.ParenExpr); ok {
+			return x
+		}
+		return &ast.ParenExpr{X: x}
+	case *ast.SelectorExpr:
+		return &ast.SelectorExpr{X: n.rw(v.X), Sel: &ast.Ident{Name: v.Sel.Name}}
+	case *ast.IndexExpr:
+		x := n.rw(v.X)
+		return &ast.IndexExpr{X: x, Index: n.rw(v.Index)}
+	case *ast.SliceExpr:
+		x := n.rw(v.X)
+		lo := n.rw(v.Low)
+		hi := n.rw(v.High)
+		return &ast.SliceExpr{X: x, Low: lo, High: hi, Max: n.rw(v.Max), Slice3: v.Slice3}
+	case *ast.StarExpr:
+		return &ast.StarExpr{X: n.rw(v.X)}
+	case *ast.TypeAssertExpr:
+		return &ast.TypeAssertExpr{X: n.rw(v.X), Type: v.Type}
+	case *ast.CallExpr:
+		f := n.rw(v.Fun)
+		return &ast.CallExpr{Fun: f, Args: n.list(v.Args), Ellipsis: v.Ellipsis}
+	case *ast.KeyValueExpr:
+		return &ast.KeyValueExpr{Key: v.Key, Value: n.rw(v.Value)}
+	case *ast.CompositeLit:
+		return &ast.CompositeLit{Type: v.Type, Elts: n.list(v.Elts)}
+	case *ast.FuncLit:
+		return &ast.Ident{Name: "func"}
+	case *ast.ArrayType, *ast.MapType, *ast.StructType, *ast.FuncType, *ast.InterfaceType:
+		return v
+	}
+	fail("condition: expression %T not understood at %s", e, fset.Position(e.Pos()))
+	return nil
+}
+
+// cond gives the normal form of a condition and whether the source tests its negation.
+func cond(e ast.Expr) (label string, neg bool) {
+	n := &normer{fi: cur}
+	// polarity first (so that numbering follows the printed text), then substitution,
+	// then polarity again (a substituted definition may itself be a negation)
+	strip := func(e ast.Expr) ast.Expr {
+		for {
+			switch v := e.(type) {
+			case *ast.ParenExpr:
+				e = v.X
+				continue
+			case *ast.UnaryExpr:
+				if v.Op == token.NOT {
+					neg = !neg
+					e = v.X
+					continue
+				}
+			case *ast.BinaryExpr:
+				if v.Op == token.EQL {
+					neg = !neg
+					return &ast.BinaryExpr{X: v.X, Op: token.NEQ, Y: v.Y}
+				}
+			}
+			return e
+		}
+	}
+	e = strip(n.rw(strip(e)))
+	return src(e), neg
+}
+
+var explain = flag.Bool("explain", false, "print source condition -> normal form on stderr")
+
 
 func calleeName(fun ast.Expr) (name string, prim bool) {
 	switch f := fun.(type) {
@@ -154,7 +632,7 @@ func (w *walker) expr(e ast.Expr, ctx []string) {
 			for _, a := range v.Args {
 				w.expr(a, ctx)
 			}
-			w.block(fl.Body, ctx)
+			w.funcBody(fl, ctx)
 			return
 		}
 		var funcArgs []*ast.FuncLit
@@ -185,11 +663,11 @@ func (w *walker) expr(e ast.Expr, ctx []string) {
 			w.add(name, argLits(v.Args), ctx)
 		}
 		for _, fl := range funcArgs {
-			w.block(fl.Body, append(ctx, "func"))
+			w.funcBody(fl, append(ctx, "func"))
 		}
 	case *ast.FuncLit:
 		// a function literal in value position that is not bound to a name: inline under "func"
-		w.block(v.Body, append(ctx, "func"))
+		w.funcBody(v, append(ctx, "func"))
 	case *ast.BinaryExpr:
 		w.expr(v.X, ctx)
 		w.expr(v.Y, ctx)
@@ -233,34 +711,174 @@ func argLits(args []ast.Expr) []string {
 	return l
 }
 
-func (w *walker) block(b *ast.BlockStmt, ctx []string) {
+// tail position: the statement is the last one of a function body (falling through returns)
+// or of a loop body (falling through continues).
+type tail int
+
+const (
+	tNone tail = iota
+	tFunc
+	tLoop
+)
+
+func (w *walker) block(b *ast.BlockStmt, ctx []string, tl tail) {
 	if b == nil {
 		return
 	}
-	for _, st := range b.List {
-		w.stmt(st, ctx)
+	w.list(b.List, ctx, tl)
+}
+
+// emptyBranch: the branch is absent, or records no site and does not leave.
+func (w *walker) emptyBranch(st ast.Stmt) bool {
+	switch v := st.(type) {
+	case nil:
+		return true
+	case *ast.BlockStmt:
+		if v == nil || len(v.List) == 0 {
+			return true
+		}
+	case *ast.IfStmt:
+		if v == nil {
+			return true
+		}
+	}
+	if terminates(st) {
+		return false
+	}
+	probe := &walker{closures: map[string]*ast.FuncLit{}, noCondSites: w.noCondSites, ftype: w.ftype}
+	ex := *explain
+	*explain = false
+	probe.branch(st, nil, tNone)
+	*explain = ex
+	return len(probe.sites) == 0 && len(probe.closures) == 0
+}
+
+// list walks a statement list.  `if c {T}; K...` where T always leaves is `if c {T} else {K...}`.
+func (w *walker) list(l []ast.Stmt, ctx []string, tl tail) {
+	for len(l) > 0 {
+		if _, ok := l[len(l)-1].(*ast.EmptyStmt); !ok {
+			break
+		}
+		l = l[:len(l)-1]
+	}
+	for i, st := range l {
+		last := i == len(l)-1
+		if is, ok := st.(*ast.IfStmt); ok && !last {
+			rest := &ast.BlockStmt{List: l[i+1:]}
+			if w.emptyBranch(is.Else) && terminates(is.Body) {
+				w.ifStmt(is, is.Body, rest, ctx, tl)
+				return
+			}
+			if w.emptyBranch(is.Body) && terminates(is.Else) {
+				w.ifStmt(is, rest, is.Else, ctx, tl)
+				return
+			}
+		}
+		t := tNone
+		if last {
+			t = tl
+		}
+		w.stmt(st, ctx, t)
+		if terminates(st) {
+			return // what follows is unreachable
+		}
 	}
 }
 
-func (w *walker) ifStmt(v *ast.IfStmt, ctx []string) {
-	if v.Init != nil {
-		w.stmt(v.Init, ctx)
+// terminates: the statement always leaves the enclosing statement list.
+func terminates(st ast.Stmt) bool {
+	switch v := st.(type) {
+	case nil:
+		return false
+	case *ast.BlockStmt:
+		if v == nil {
+			return false
+		}
+		for _, st := range v.List {
+			if terminates(st) {
+				return true // (what follows is unreachable)
+			}
+		}
+		return false
+	case *ast.ReturnStmt:
+		return true
+	case *ast.BranchStmt:
+		return v.Tok == token.CONTINUE || v.Tok == token.BREAK
+	case *ast.ExprStmt:
+		if c, ok := v.X.(*ast.CallExpr); ok {
+			name, prim := calleeName(c.Fun)
+			return !prim && (name == "Abort" || name == "panic")
+		}
+	case *ast.IfStmt:
+		if v == nil {
+			return false
+		}
+		return v.Else != nil && terminates(v.Body) && terminates(v.Else)
+	case *ast.LabeledStmt:
+		return terminates(v.Stmt)
 	}
-	w.expr(v.Cond, ctx)
-	c := src(v.Cond)
-	w.block(v.Body, append(ctx, "if:"+c))
-	switch e := v.Else.(type) {
+	return false
+}
+
+func (w *walker) branch(st ast.Stmt, ctx []string, tl tail) {
+	switch e := st.(type) {
 	case nil:
 	case *ast.BlockStmt:
-		w.block(e, append(ctx, "else:"+c))
+		if e != nil {
+			w.list(e.List, ctx, tl)
+		}
 	case *ast.IfStmt:
-		w.ifStmt(e, append(ctx, "else:"+c))
+		if e != nil {
+			w.ifStmt(e, e.Body, e.Else, ctx, tl)
+		}
 	default:
 		fail("else %T", e)
 	}
 }
 
-func (w *walker) stmt(st ast.Stmt, ctx []string) {
+// ifStmt records `if v.Cond then else els` in normal form: the branch taken when the positive
+// condition holds under "if:", the other under "else:"; if the positive branch always leaves
+// (in tail position every branch does) the negative branch is recorded flat after it; if only
+// the negative branch leaves, it comes first and the positive branch is flat.
+func (w *walker) ifStmt(v *ast.IfStmt, then, els ast.Stmt, ctx []string, tl tail) {
+	if v.Init != nil {
+		w.stmt(v.Init, ctx, tNone)
+	}
+	if !w.noCondSites[v] {
+		w.expr(v.Cond, ctx)
+	}
+	c, neg := cond(v.Cond)
+	if *explain {
+		fmt.Fprintf(os.Stderr, "%s: %s  =>  neg=%v %s\n", cur.fd.Name.Name, src(v.Cond), neg, c)
+	}
+	pos, negative := then, els
+	if neg {
+		pos, negative = negative, pos
+	}
+	if w.emptyBranch(pos) {
+		pos = nil
+	}
+	if w.emptyBranch(negative) {
+		negative = nil
+	}
+	lp := terminates(pos) || tl != tNone
+	ln := terminates(negative) || tl != tNone
+	ifc := append(ctx[:len(ctx):len(ctx)], "if:"+c)
+	elc := append(ctx[:len(ctx):len(ctx)], "else:"+c)
+	switch {
+	case lp:
+		w.branch(pos, ifc, tl)
+		w.branch(negative, ctx, tl)
+	case ln:
+		w.branch(negative, elc, tl)
+		w.branch(pos, ctx, tl)
+	default:
+		w.branch(pos, ifc, tl)
+		w.branch(negative, elc, tl)
+	}
+}
+
+func (w *walker) stmt(st ast.Stmt, ctx []string, tl tail) {
 	switch v := st.(type) {
 	case *ast.ExprStmt:
 		w.expr(v.X, ctx)
@@ -289,25 +907,34 @@ func (w *walker) stmt(st ast.Stmt, ctx []string) {
 			}
 		}
 	case *ast.IfStmt:
-		w.ifStmt(v, ctx)
+		w.ifStmt(v, v.Body, v.Else, ctx, tl)
 	case *ast.ForStmt:
 		if v.Init != nil {
-			w.stmt(v.Init, ctx)
+			w.stmt(v.Init, ctx, tNone)
 		}
 		lc := append(ctx, "loop")
 		w.expr(v.Cond, lc)
-		w.block(v.Body, lc)
+		w.block(v.Body, lc, tLoop)
 		if v.Post != nil {
-			w.stmt(v.Post, lc)
+			w.stmt(v.Post, lc, tNone)
 		}
 	case *ast.RangeStmt:
 		w.expr(v.X, ctx)
-		w.block(v.Body, append(ctx, "loop"))
+		w.block(v.Body, append(ctx, "loop"), tLoop)
 	case *ast.ReturnStmt:
+		if len(v.Results) == 0 && tl == tFunc {
+			return // falling off the end of the function: the same
+		}
 		var lits []string
-		for _, r := range v.Results {
+		for i, r := range v.Results {
 			w.expr(r, ctx)
-			lits = append(lits, litOf(r))
+			l := litOf(r)
+			if id, ok := r.(*ast.Ident); ok && i == len(v.Results)-1 && cur.local(id) != nil && w.returnsError() {
+				if obj := cur.local(id); cur.expandable(obj) == nil || cur.errorLike(obj) {
+					l = "err" // a local variable returned as the error result, whatever its name
+				}
+			}
+			lits = append(lits, l)
 		}
 		w.add("return", lits, ctx)
 	case *ast.DeferStmt:
@@ -315,7 +942,9 @@ func (w *walker) stmt(st ast.Stmt, ctx []string) {
 	case *ast.BranchStmt:
 		switch v.Tok {
 		case token.CONTINUE:
-			w.add("continue", nil, ctx)
+			if tl != tLoop { // at the end of a loop body: the same as falling through
+				w.add("continue", nil, ctx)
+			}
 		case token.BREAK:
 			w.add("break", nil, ctx)
 		default:
@@ -323,47 +952,60 @@ func (w *walker) stmt(st ast.Stmt, ctx []string) {
 		}
 	case *ast.SwitchStmt:
 		if v.Init != nil {
-			w.stmt(v.Init, ctx)
+			w.stmt(v.Init, ctx, tNone)
 		}
-		tag := ""
 		if v.Tag != nil {
 			w.expr(v.Tag, ctx)
-			tag = src(v.Tag)
 		}
 		// cases as an if / else-if chain; default last
-		cur := append([]string(nil), ctx...)
 		var def *ast.CaseClause
+		var chain, last *ast.IfStmt
 		for _, cc := range v.Body.List {
 			c := cc.(*ast.CaseClause)
 			if c.List == nil {
 				def = c
 				continue
 			}
-			var alts []string
+			var label ast.Expr
 			for _, e := range c.List {
-				if tag != "" {
-					alts = append(alts, tag+" == "+src(e))
+				alt := e
+				if v.Tag != nil {
+					alt = &ast.BinaryExpr{X: v.Tag, Op: token.EQL, Y: e}
+				}
+				if label == nil {
+					label = alt
 				} else {
-					alts = append(alts, src(e))
+					label = &ast.BinaryExpr{X: label, Op: token.LOR, Y: alt}
 				}
 			}
-			label := strings.Join(alts, " || ")
-			for _, s := range c.Body {
-				w.stmt(s, append(cur, "if:"+label))
+			is := &ast.IfStmt{Cond: label, Body: &ast.BlockStmt{List: c.Body}}
+			if w.noCondSites == nil {
+				w.noCondSites = map[*ast.IfStmt]bool{}
 			}
-			cur = append(cur, "else:"+label)
+			w.noCondSites[is] = true
+			if chain == nil {
+				chain = is
+			} else {
+				last.Else = is
+			}
+			last = is
 		}
-		if def != nil {
-			for _, s := range def.Body {
-				w.stmt(s, cur)
+		if chain == nil {
+			if def != nil {
+				w.list(def.Body, ctx, tl)
 			}
+		} else {
+			if def != nil {
+				last.Else = &ast.BlockStmt{List: def.Body}
+			}
+			w.ifStmt(chain, chain.Body, chain.Else, ctx, tl)
 		}
 	case *ast.BlockStmt:
-		w.block(v, ctx)
+		w.block(v, ctx, tl)
 	case *ast.IncDecStmt:
 		w.expr(v.X, ctx)
 	case *ast.LabeledStmt:
-		w.stmt(v.Stmt, ctx)
+		w.stmt(v.Stmt, ctx, tl)
 	case *ast.EmptyStmt:
 	default:
 		fail("statement %T not understood at %s", st, fset.Position(st.Pos()))
@@ -437,8 +1079,9 @@ func main() {
 			if fd == nil || fd.Body == nil {
 				fail("%s: function %s not found", wf.file, outer)
 			}
-			w := &walker{closures: map[string]*ast.FuncLit{}}
-			w.block(fd.Body, nil)
+			cur = analyse(fd)
+			w := &walker{closures: map[string]*ast.FuncLit{}, ftype: fd.Type}
+			w.block(fd.Body, nil, tFunc)
 			done[outer] = w.sites
 			if w.sites == nil {
 				done[outer] = []site{}
@@ -449,8 +1092,8 @@ func main() {
 			}
 			sort.Strings(cn)
 			for _, n := range cn {
-				cw := &walker{closures: map[string]*ast.FuncLit{}}
-				cw.block(w.closures[n].Body, nil)
+				cw := &walker{closures: map[string]*ast.FuncLit{}, ftype: w.closures[n].Type}
+				cw.block(w.closures[n].Body, nil, tFunc)
 				if len(cw.closures) != 0 {
 					fail("%s: nested named closures in %s$%s", wf.file, outer, n)
 				}
